@@ -8,15 +8,15 @@ TECH = "bounded model checking of the real code: Kani 0.68 -> CBMC 6.11 (cadical
 
 CLAIMED = {
  "C15": dict(
-   text="A generic contract Gc<A,B,V,R,U,W> (A used directly and AGAIN after B and V -- so a de-duplication that only looks at adjacent uses shows up --, B only inside Option, V only inside Vec, R only as a query response, U unused, W under a where-bound relating it to A) and an interface with associated types are expanded by the real macros; the harness crate NAMES each generated type with exactly the expected parameters (ExecMsg<A,B,V>, QueryMsg<R>, SudoMsg<W>, InstantiateMsg, IfgExecMsg<T1>, IfgQueryMsg<T2>) and equates them with the ContractApi aliases (compile gate), and CBMC decides differentially against a non-generic twin, over symbolic values: same serde events, same accepted names (phantom placeholder never accepted, contract and interface messages), same decode verdict and value, same handler and argument on dispatch (including the interface arm). A second generic contract Gs<P,Q> uses P ONLY through `resp=P` on a query and Q only in a query argument: QueryMsg<P,Q> is named and constructed (compile gate).",
-   note="the parameter lists / where-clauses themselves are token-level facts decided only through the compile gate; one instantiation; program dimension sampled by one generic contract + one interface",
+   text="A generic contract Gc<A,B,V,R,U,W> (A used directly and AGAIN after B and V -- so a de-duplication that only looks at adjacent uses shows up --, B only inside Option, V only inside Vec, R only as a query response, U unused, W under a where-bound relating it to A) and an interface with associated types are expanded by the real macros; the harness crate NAMES each generated type with exactly the expected parameters (ExecMsg<A,B,V>, QueryMsg<R>, SudoMsg<W>, InstantiateMsg, IfgExecMsg<T1>, IfgQueryMsg<T2>) and equates them with the ContractApi aliases (compile gate), and CBMC decides differentially against a non-generic twin, over symbolic values: same serde events, same accepted names (phantom placeholder never accepted, contract and interface messages), same decode verdict and value, same handler and argument on dispatch (including the interface arm). A second generic contract Gs<P,Q> uses P ONLY through `resp=P` on a query and Q only in a query argument: QueryMsg<P,Q> is named and constructed (compile gate). A third generic contract Gp<T,X,U,Y> reaches its parameters only through MULTI-SEGMENT paths (std::vec::Vec<T>, core::option::Option<X>, self::Wrap<Y>) and bounds Y in two separate where-predicates, one of them relating it to T: ExecMsg<T>, SudoMsg<X>, QueryMsg<Y>, InstantiateMsg are named, equated with the ContractApi aliases (compile gate -- it found that two predicates on one parameter made the helper traits declare an associated type twice; fixed), and CBMC decides that they accept exactly their methods' names (2 symbolic bytes) and encode as usual.",
+   note="the parameter lists / where-clauses themselves are token-level facts decided only through the compile gate; one instantiation; program dimension sampled by three generic contracts + one interface",
    ref="§3 C15"),
  "C14": dict(
    text="The same program is expanded by the real macros in three declaration orders (methods of the impl, methods of the interface trait, #[sv::messages] and #[sv::override_entry_point] attributes permuted: written, reversed, rotated). CBMC decides differentially, over symbolic inputs: published name lists identical; every received 2-byte name accepted by the same message types; equal messages serialise to equal events; the same exec/sudo/instantiate/migrate message through each twin's entry point runs the same handler with the same arguments and outcome; a reply for a shared handler name (success method with #[sv::data] + error method, in either order) and for a solo name reaches the same method with the same arguments (only id constants differ). That every order is ACCEPTED with the same set of entry points is the compile gate (which also builds the generic corpus contract) -- it found the data-parameter merge defect (fixed).",
    note="3 of n! permutations sampled; query results compared per order in C02 only; stubs: Backtrace::capture, fmt::format",
    ref="§3 C14"),
  "C17": dict(
-   text="CBMC decides, through the derived (de)serialisers of corpus `attrs`: #[sv::msg_attr(kind, serde(deny_unknown_fields))] forwarded to exec and migrate (contract) and to query (interface) makes exactly those three of seven generated types reject a body with an unknown key (symbolic values); #[sv::attr(serde(rename=\"zz\"))] on one handler makes exactly that variant answer to `zz` (received names of length 2..5 with symbolic bytes: accepted set = {zz, args, other}; `ren` is not accepted) and serialise under it; #[serde(default)] / #[serde(rename=\"k\")] written on handler arguments -- also wrapped in #[cfg_attr(.., serde(default))] -- make that field optional / keyed `k` (body layouts with symbolic values). Several attributes forwarded to ONE kind (two separate derive(..) per struct/enum kind, either order) all arrive: compile gate naming the derived traits.",
+   text="CBMC decides, through the derived (de)serialisers of corpus `attrs`: #[sv::msg_attr(kind, serde(deny_unknown_fields))] forwarded to exec and migrate (contract) and to query (interface) makes exactly those three of seven generated types reject a body with an unknown key (symbolic values); #[sv::attr(serde(rename=\"zz\"))] on one handler makes exactly that variant answer to `zz` (received names of length 2..5 with symbolic bytes: accepted set = {zz, args, other}; `ren` is not accepted) and serialise under it; #[serde(default)] / #[serde(rename=\"k\")] written on handler arguments -- also wrapped in #[cfg_attr(.., serde(default))] -- make that field optional / keyed `k` (body layouts with symbolic values); two separate attributes with the SAME path on one argument (#[serde(default)] then #[serde(rename=\"w\")]) both land on the field. Several attributes forwarded to ONE kind (two separate derive(..) per struct/enum kind, either order) all arrive: compile gate naming the derived traits.",
    note="attributes without run-time effect (derives, docs) are token-level facts decided only through the compile gate (derives) or outside the claim (docs); contract-level routing of a variant renamed through sv::attr is outside (the published list keeps the method name; see DESIGN §6); JSON text layer outside",
    ref="§3 C17"),
  "C10": dict(
@@ -40,7 +40,7 @@ CLAIMED = {
    note="the serde_cw_value container is replaced by a bounded two-level model (hw/facade; <=3 entries, strings <=8 bytes; overflow asserted absent) which is validated natively against the real container and real JSON text on 40 documents in every run (pre-flight), the error TEXT (format!, String::push_str stubbed) and the JSON text layer are outside; program dimension sampled (3 corpus contracts)",
    ref="§3 C03"),
  "C01": dict(
-   text="CBMC decides, over the derived (de)serialisers of the message types the real macros generate for corpus `basic` (contract: 5 kinds; two interfaces), driven through the serde data model: (a) for symbolic variant and argument values the recorded serde events are exactly {name:{arg:value..}} with the arguments in declaration order (flat struct for instantiate/migrate) and constructors equal literals; (c) for a symbolic received name of each length 3..7 the type accepts it iff it is the name of a method of that kind (hand-written list) -- and iff it is in the published list; for 10 body layouts with symbolic values decoding succeeds iff every argument is present exactly once and in range, and the decoded value re-serialises to the oracle's events; the internal type-parameter placeholder variant of GENERIC contract / interface messages is not accepted under any casing.",
+   text="CBMC decides, over the derived (de)serialisers of the message types the real macros generate for corpus `basic` (contract: 5 kinds; two interfaces), driven through the serde data model: (a) for symbolic variant and argument values the recorded serde events are exactly {name:{arg:value..}} with the arguments in declaration order (flat struct for instantiate/migrate) and constructors equal literals; (c) for a symbolic received name of each length 3..7 the type accepts it iff it is the name of a method of that kind (hand-written list) -- and iff it is in the published list; for 10 body layouts with symbolic values decoding succeeds iff every argument is present exactly once and in range, and the decoded value re-serialises to the oracle's events; the internal type-parameter placeholder variant of GENERIC contract / interface messages is not accepted under any casing; argument names with a trailing / leading underscore or a digit (`type_`, `_lead`, `x2`, flat `ref_`) are the wire keys verbatim in both directions.",
    note="JSON text layer (serde_json_wasm) outside: harness-supplied Serializer/Deserializer stand in its place; argument types u8/u32/u64/bool; names <= 7 bytes; program dimension sampled (17 handlers incl. multi-word and digit-bearing names); trusted: Kani/CBMC/cadical, HSpec table",
    ref="§3 C01"),
  "C11": dict(
@@ -56,7 +56,7 @@ CLAIMED = {
    note="the JSON-inside-the-envelope cells of the two EXECUTE-envelope typed modes (well-formed / malformed inner JSON) are OUTSIDE the claim: every cell whose envelope carries inner bytes does not finish, even with from_json replaced (hw/c09t/README.md); raw data <= 3 bytes, instantiate envelopes of 2 bytes (3-byte instances exhaust CBMC's memory); stubs: Backtrace::capture, fmt::format; trusted: Kani/CBMC/cadical, oracle table",
    ref="§3 C09"),
  "C02": dict(
-   text="CBMC decides, for the dispatch functions generated by the real macros for corpus contract `basic` (own messages of all five kinds and the three contract-level wrappers over a contract + 2 interfaces), over ALL argument values, env/info values, storage/api/querier tags and both handler outcomes: exactly one handler runs, it is the one the variant was generated from, every field reaches the same-named parameter, the context is the caller's, the write lands in the caller's storage, Ok responses come back untouched, errors come back converted into the declared type, query results are the JSON bytes of the returned value (a struct in `basic`; corpus `qret`: bool, and Binary from a contract and an interface query -- returned as a JSON string, not as its bytes).",
+   text="CBMC decides, for the dispatch functions generated by the real macros for corpus contract `basic` (own messages of all five kinds and the three contract-level wrappers over a contract + 2 interfaces), over ALL argument values, env/info values, storage/api/querier tags and both handler outcomes: exactly one handler runs, it is the one the variant was generated from, every field reaches the same-named parameter, the context is the caller's, the write lands in the caller's storage, Ok responses come back untouched, errors come back converted into the declared type, query results are the JSON bytes of the returned value (a struct in `basic`; corpus `qret`: bool, and Binary from a contract and an interface query -- returned as a JSON string, not as its bytes). The tuple -> context conversions of sylvia::ctx that every dispatch arm builds its context with are also driven on their own: deps, env and -- for exec / instantiate -- sender and 0, 1 and 2 coins (symbolic amounts, zero included, order kept) arrive unchanged.",
    note="program dimension sampled (one contract, two interfaces, 19 handlers incl. same-signature siblings); argument types primitive; storage/api/querier are tag objects; stubs: Backtrace::capture, fmt::format (error text outside); for the Binary-returning queries Binary::to_base64 is a constant stub (base64 text outside); trusted: Kani/CBMC/cadical, oracle table in corpus/basic.rs",
    ref="§3 C02"),
  "C07": dict(
